@@ -859,17 +859,23 @@ impl FrontendInternal {
         }
         self.check_state()?;
 
-        let mut buf: Vec<u8> = vec![0; hdr.get_size() as usize - mem::size_of::<T>()];
+        let payload_size = hdr.get_size() as usize - mem::size_of::<T>();
         #[cfg(feature = "verif-hooks")]
         super::verif::hold("fe.reply_wait");
-        let (reply, body, bytes, files) = self.main_sock.recv_payload_into_buf::<T>(&mut buf)?;
+        // Receive the fixed size part of the reply first: the reply tells how much payload follows,
+        // which is less than what was asked for when the backend reports a failure (e.g. a
+        // zero-sized GET_CONFIG reply). Waiting for the requested amount would block forever then.
+        let (reply, body, files) = self.main_sock.recv_body::<T>()?;
         if !reply.is_reply_for(hdr)
-            || reply.get_size() as usize != mem::size_of::<T>() + bytes
+            || reply.get_size() as usize != mem::size_of::<T>() + payload_size
             || files.is_some()
             || !body.is_valid()
-            || bytes != buf.len()
         {
             return Err(VhostUserError::InvalidMessage);
+        }
+        let (bytes, buf) = self.main_sock.recv_data(payload_size)?;
+        if bytes != payload_size {
+            return Err(VhostUserError::PartialMessage);
         }
 
         Ok((body, buf, files))
